@@ -497,7 +497,7 @@ class ExprMixin(EngineCore):
             if attr == "strerror":
                 return OpaqueStr()
             return None
-        if attr in ("with_traceback", "add_note"):
+        if attr in ("with_traceback", "add_note", "split"):
             return BoundMethod(v, "exc." + attr)
         raise EngineError(f"exception attribute {attr}")
 
